@@ -19,6 +19,8 @@ ASSUMPTIONS = ["the application passes a compression object created by jpeg_crea
 def classify(op, R):
     p = op.split(" ")
     r = R.split(" ")
+    if p[0] == "vscript":
+        return "vscript:p%s:nc%s:%s" % (p[1], p[2], " ".join(r[:3]))
     if p[0] == "creuse":
         return "creuse:n%s" % p[2]
     if p[0] == "rstrows":
@@ -28,11 +30,92 @@ def classify(op, R):
     return "xcoef:p%s:m%s:t%s:%s" % (p[1], p[2], p[6], r[1] if len(r) > 1 else "?")
 
 
+
+def _valid_prog(rng, nc):
+    """a valid progressive script as a list of (comps, ss, se, ah, al)"""
+    scans = []
+    dcal = rng.choice([0, 0, 1, 2])
+    if nc <= 4 and rng.random() < .5:
+        scans.append((list(range(nc)), 0, 0, 0, dcal))
+    else:
+        for c in range(nc):
+            scans.append(([c], 0, 0, 0, dcal))
+    bands = []
+    for c in range(nc):
+        k = 1
+        while k <= 63:
+            e = 63 if rng.random() < .3 else rng.randint(k, 63)
+            al = rng.choice([0, 0, 1, 2])
+            bands.append((c, k, e, al))
+            scans.append(([c], k, e, 0, al))
+            k = e + 1
+            if rng.random() < .25:
+                break
+    for lvl in (2, 1):
+        if dcal >= lvl:
+            if nc <= 4 and rng.random() < .5:
+                scans.append((list(range(nc)), 0, 0, lvl, lvl - 1))
+            else:
+                for c in range(nc):
+                    scans.append(([c], 0, 0, lvl, lvl - 1))
+        for (c, k, e, al) in bands:
+            if al >= lvl:
+                scans.append(([c], k, e, lvl, lvl - 1))
+    return scans
+
+
+def _vscript(rng):
+    nc = rng.choice([1, 1, 3, 3, 3, 4, 2, 5, 10])
+    prec = rng.choice([8, 8, 8, 12])
+    kind = rng.choice(["prog", "prog", "prog", "seq", "lossless", "hostile"])
+    if kind == "prog":
+        scans = _valid_prog(rng, nc)
+    elif kind == "seq":
+        scans = [(list(range(nc)), 0, 63, 0, 0)] if nc <= 4 and rng.random() < .5 else [([c], 0, 63, 0, 0) for c in range(nc)]
+    elif kind == "lossless":
+        psv, pt = rng.randint(1, 7), rng.choice([0, 0, 1, 7, prec - 1, prec])
+        scans = [(list(range(nc)), psv, 0, 0, pt)] if nc <= 4 and rng.random() < .5 else [([c], psv, 0, 0, pt) for c in range(nc)]
+    else:
+        scans = [(rng.sample(range(-1, nc + 1), rng.randint(1, min(4, nc + 2))), rng.randint(-1, 64), rng.randint(-1, 64), rng.randint(-1, 14), rng.randint(-1, 14))
+                 for _ in range(rng.randint(1, 6))]
+    scans = [list(s) for s in scans]
+    ncs = [len(s[0]) for s in scans]
+    # mutations of a valid script: each keeps the rest of the script intact
+    for _ in range(rng.choice([0, 0, 1, 1, 2])):
+        if not scans:
+            break
+        i = rng.randrange(len(scans))
+        m = rng.randrange(10)
+        if m == 0: scans[i][1] += rng.choice([-1, 1])
+        elif m == 1: scans[i][2] += rng.choice([-1, 1])
+        elif m == 2: scans[i][3] += rng.choice([-1, 1, 2])
+        elif m == 3: scans[i][4] += rng.choice([-1, 1, 2, 9, 11, 12])
+        elif m == 4: ncs[i] = rng.choice([0, -1, 5, ncs[i] + 1, max(ncs[i] - 1, 0)])
+        elif m == 5: scans[i][0] = [rng.randint(-1, nc) for _ in scans[i][0]]
+        elif m == 6: del scans[i]; del ncs[i]
+        elif m == 7 and len(scans) > 1:
+            j = rng.randrange(len(scans)); scans[i], scans[j] = scans[j], scans[i]; ncs[i], ncs[j] = ncs[j], ncs[i]
+        elif m == 8: scans.insert(i, [list(scans[i][0])] + scans[i][1:]); ncs.insert(i, ncs[i])
+        else: scans[i][0] = list(reversed(scans[i][0]))
+    scans, ncs = scans[:64], ncs[:64]
+    parts = []
+    for s, n in zip(scans, ncs):
+        idx = (list(s[0]) + [rng.choice([0, 0, 1, 7])] * 4)[:4]
+        parts.append("%d %d %d %d %d %d %d %d %d" % (n, idx[0], idx[1], idx[2], idx[3], s[1], s[2], s[3], s[4]))
+    return "vscript %d %d %d %s" % (prec, nc, len(scans), " ".join(parts))
+
+
 def gen_ops(rng, tier):
     big = tier == "thorough"
     ops = []
     for i in range(30000 if big else 4000):
         ops.append("cparam %d %d" % (rng.choice([0, 0, 0, 1, 2, 3, 4, 5, 6, 7]), rng.randrange(1 << 30)))
+    # scan scripts: valid progressive / sequential / lossless scripts, one- and two-step mutations of them, hostile ones; the model of
+    # validate_script must give the same verdict (error code, offending scan, mode) and, for accepted progressive scripts, predict the
+    # warnings of the real decoder on the file the real compressor wrote (theorem: none)
+    for i in range(6000 if big else 900):
+        ops.append(_vscript(rng))
+    ops.append("vscript 8 1 0")
     # one compression object for a sequence of images with different component counts and coding modes
     for i in range(600 if big else 80):
         ops.append("creuse %d %d" % (rng.randrange(1 << 30), rng.randint(2, 6)))
